@@ -179,12 +179,24 @@ func (pc *pCtx) p3Lazy(sites []*pSite, only string) {
 		s0 := ss[0]
 		lazyOK := true
 		lazyNote := ""
+		pureOK := true
+		pureNote := ""
 		for _, fn := range closureTree(top) {
 			if inAny[fn] {
 				continue
 			}
 			for _, b := range fn.Blocks {
 				for _, ins := range b.Instrs {
+					// a clock or random reading taken while the pipeline is built is shared by every later subscription
+					if call, ok := ins.(ssa.CallInstruction); ok {
+						if f := call.Common().StaticCallee(); f != nil && f.Pkg != nil {
+							pp := f.Pkg.Pkg.Path()
+							if (pp == "time" && (f.Name() == "Now" || f.Name() == "Since" || f.Name() == "Until")) || strings.HasSuffix(pp, "internal/xtime") || strings.HasSuffix(pp, "internal/xrand") || pp == "math/rand" || pp == "math/rand/v2" {
+								pureOK = false
+								pureNote = fmt.Sprintf("%s.%s is read while the pipeline is being built (%s), not per subscription", pp, f.Name(), pc.pos(ins.Pos()))
+							}
+						}
+					}
 					if call, ok := ins.(ssa.CallInstruction); ok && call.Common().IsInvoke() {
 						m := call.Common().Method.Name()
 						if (strings.HasPrefix(m, "Subscribe") || strings.HasPrefix(m, "Connect")) && hasMethod(call.Common().Value.Type(), "SubscribeWithContext") {
@@ -211,6 +223,7 @@ func (pc *pCtx) p3Lazy(sites []*pSite, only string) {
 			}
 		}
 		pc.add(props, fmt.Sprintf("P3/%s/lazy", name), "building a pipeline subscribes to nothing: sources are subscribed only inside subscribe functions", lazyOK || hot, lazyNote, pc.pos(top.Pos()))
+		pc.add(props, fmt.Sprintf("P3/%s/no-clock-or-random-reading-at-construction", name), "the clock and the random source are read per subscription, never while an operator is built or applied (the reading would be shared by every subscription)", pureOK, pureNote, pc.pos(top.Pos()))
 	}
 }
 
